@@ -20,6 +20,8 @@ pub struct Tracing {
     pub inner: tx3_cardano::Compiler,
     pub passes: RefCell<Vec<Value>>,
     pub resets: RefCell<usize>,
+    /// the IR handed to the last compilation
+    pub last_tir: RefCell<Value>,
 }
 
 impl Tracing {
@@ -28,6 +30,7 @@ impl Tracing {
             inner,
             passes: RefCell::new(vec![]),
             resets: RefCell::new(0),
+            last_tir: RefCell::new(Value::Null),
         }
     }
     pub fn take(&self) -> Vec<Value> {
@@ -49,6 +52,10 @@ impl CompilerTrait for Tracing {
 
     fn compile(&mut self, t: &AnyTir) -> Result<CompiledTx, tx3_tir::compile::Error> {
         let r = self.inner.compile(t);
+        {
+            let AnyTir::V1Beta0(tx) = t;
+            *self.last_tir.borrow_mut() = crate::tirjson::tx_json(tx);
+        }
         let entry = match &r {
             Ok(c) => json!({"fee_in": fees_of(t), "payload": hx(&c.payload), "hash": hx(&c.hash), "fee_out": c.fee}),
             Err(e) => json!({"fee_in": fees_of(t), "err": crate::stages::compile_err_class(e)}),
